@@ -65,6 +65,7 @@ struct Controller {
     std::size_t hardware = 16;
     std::vector<std::string> log;         // control / region events for the demo traces
     bool log_enabled = false;
+    std::vector<std::size_t> region_active; // allowed parallelism observed by every region (when log_enabled)
 
     void begin_call() { counter = 0; target_hit = false; regions.clear(); splits = steals = leaves = 0; }
     std::uint64_t rnd(std::uint64_t salt) {
@@ -113,6 +114,7 @@ inline std::vector<Node> next_reduce(std::size_t n) {
     Controller &c = ctl();
     long me = c.counter++;
     if (c.record) c.regions.push_back(RegionInfo{'R', n});
+    if (c.log_enabled) c.region_active.push_back(c.active_parallelism());
     std::vector<Node> t;
     int mode = c.mode;
     if (mode == 2) {
@@ -130,6 +132,7 @@ inline ForSchedule next_for(std::size_t n) {
     Controller &c = ctl();
     long me = c.counter++;
     if (c.record) c.regions.push_back(RegionInfo{'F', n});
+    if (c.log_enabled) c.region_active.push_back(c.active_parallelism());
     ForSchedule s;
     int mode = c.mode;
     if (mode == 2) {
